@@ -1,5 +1,5 @@
 import OZ.Drv.C20Util
-import OZ.Model.RegClaims
+import OZ.Model.RegClaimsMon
 /-
 `claims ...` sub-driver of C20: identity claims (claim by id, ids by topic).
 Universe: issuers 0..2 (mock claim issuers rejecting exactly the claims with empty data, `d=0`),
@@ -7,30 +7,20 @@ topics 0..3. A claim id prints as `issuer.topic` (the harness decodes the real k
 through `generate_claim_id` over the universe; an id outside it prints as `?`).
 -/
 namespace OZ.Drv.C20.Claims
-open OZ.Drv OZ.Drv.C20 OZ.RegClaims
+open OZ.Drv OZ.Drv.C20 OZ.RegClaims OZ.RegClaims.Mon
 
-def NI : Nat := 3
-def NT : Nat := 4
-def valid (_i _t _sc _sg d : Nat) : Bool := d ≠ 0
 
 structure M where
   s : State
 
 def initM (_ws : List String) : M := { s := init }
 
-def showId (id : Id) : String := s!"{id.1}.{id.2}"
-def showClaim (c : Claim) : String := s!"{c.topic}.{c.scheme}.{c.issuer}.{c.sig}.{c.data}.{c.uri}"
-def ids : List Id := (List.range NI).flatMap (fun i => (List.range NT).map (fun t => (i, t)))
 
 def showState (m : M) : String :=
   let s := m.s
   let C := ids.filterMap (fun id => (getClaim s id).map (fun c => s!"{showId id}:{showClaim c}"))
   let BT := (List.range NT).map (fun t => s!"{t}:{sepBy "+" ((getClaimIdsByTopic s t).map showId)}")
   s!"C={sepBy "," C} BT={sepBy "," BT}"
-
-inductive Cmd where
-  | op (o : Op)
-  | removeRaw                -- an id that was never produced
 
 def parseCmd (ws : List String) : Option Cmd :=
   match ws with
@@ -56,49 +46,27 @@ def stepLine (m : M) (line : String) : M × String :=
       (m', s!"ok ret={ret} " ++ showState m')
     | .error _ => (m, "err ret=- " ++ showState m)
 
-/-! ### monitor: the plain map (issuer, topic) -> claim -/
-
-structure Mon where
-  map : List (Id × String)      -- id -> printed claim
+/-! ### monitor: parsing only; the checks are `OZ.RegClaims.Mon.checkCore` (OZ/Model/RegClaimsMon.lean),
+proved sound in OZ/Props/C20gMon.lean -/
 
 def minit (_ws : List String) : Mon := { map := [] }
 
-def check (g : Mon) (opl obs : String) : Mon × Option String :=
+def parseObs (obs : String) : Obs :=
   let ws := words obs
-  let ok := ws.head? == some "ok"
+  { ok := ws.head? == some "ok",
+    ret := kvS ws "ret",
+    C := kvS ws "C",
+    BT := (parts "," (kvS ws "BT")).map (fun e => match e.splitOn ":" with
+      | [t, l] => (t.toNat?.getD 99, parts "+" l)
+      | _ => (99, [])),
+    BTraw := kvS ws "BT" }
+
+def check (g : Mon) (opl obs : String) : Mon × Option String :=
   match parseCmd (words opl) with
   | none => (g, some s!"site=claims.parse bad op {opl}")
-  | some c =>
-    let plain : Except String Mon := match c with
-      | .removeRaw => .error "absent"
-      | .op (.add t sc i sg d u) =>
-        if d = 0 then .error "invalid_claim"
-        else .ok { map := g.map.filter (fun e => e.1 ≠ (i, t)) ++ [((i, t), showClaim ⟨t, sc, i, sg, d, u⟩)] }
-      | .op (.remove id) =>
-        if (g.map.find? (fun e => e.1 == id)).isSome then .ok { map := g.map.filter (fun e => e.1 ≠ id) } else .error "absent"
-    let (g2, accept) : Mon × Option String :=
-      match plain, ok with
-      | .ok g', true => (g', none)
-      | .error _, false => (g, none)
-      | .ok _, false => (g, some (refusedSite "claims" "valid"))
-      | .error why, true => (g, some (acceptedSite "claims" why))
-    let retWant := match c, ok with
-      | .op (.add t _ i _ _ _), true => showId (i, t)
-      | _, _ => "-"
-    let cWant := ids.filterMap (fun id => (g2.map.find? (fun e => e.1 == id)).map (fun e => s!"{showId id}:{e.2}"))
-    -- by-topic index: each topic lists exactly the ids of the stored claims with that topic, once
-    let bt := (parts "," (kvS ws "BT")).map (fun e => match e.splitOn ":" with
-      | [t, l] => (t.toNat?.getD 99, parts "+" l)
-      | _ => (99, []))
-    let btOk := (List.range NT).all (fun t =>
-      let want := (g2.map.filter (fun e => e.1.2 == t)).map (fun e => showId e.1)
-      match bt.find? (fun x => x.1 == t) with
-      | some (_, l) => nodupB l && sameSet l want
-      | none => false)
-    let fail := firstFail [accept,
-      chk (kvS ws "ret" = retWant) s!"site=claims.id add_claim returned {kvS ws "ret"}, expected the id of {retWant}",
-      chk (kvS ws "C" = sepBy "," cWant) s!"site=claims.map get_claim = {kvS ws "C"} but the plain map gives {sepBy "," cWant}",
-      chk btOk s!"site=claims.enumerates_once get_claim_ids_by_topic = {kvS ws "BT"} does not list the stored claims of each topic once"]
-    (g2, fail)
+  | some c => checkCore g c (parseObs obs)
+
+/-- the monitor state type, as the dispatcher OZ/Drv/C20.lean names it -/
+abbrev MonT := OZ.RegClaims.Mon.Mon
 
 end OZ.Drv.C20.Claims
